@@ -256,3 +256,63 @@ def k17(res, tier, seed, tag="k17"):
         res.broke("correspondence-error", "K17", e)
     for i in fails[:5]:
         res.broke("correspondence", "K17 " + meta[i]["func"], meta[i])
+
+
+def k18(res, tier, seed, tag="k18"):
+    """K18: hand model Model/IsimipStep1.v vs ISIMIP steps 1 and 8 (annual cycle of upper bounds: multi-year daily maxima,
+    running maximum / running mean with wrap-around for odd AND even sizes, sizes longer than the number of days; debiased
+    cycle in both branches; scaling and rescaling by day, with and without all 366 days present)."""
+    logging.getLogger("ibicus").setLevel(logging.CRITICAL)
+    from ibicus.debias import ISIMIP
+    r = C.rng_for(seed, tag)
+    n = 24 if tier == "quick" else 240
+    cc = C.CoqCases(tag, ["NP", "QL", "IsimipStep1", "CorrBase", "Step1Corr"], per_file=40)
+    meta = []
+    def cycle(k, zeros=False):
+        c = sample(r, k, 0, 9, 16)
+        if zeros:
+            for j in range(k):
+                if r.random() < 0.2: c[j] = Fraction(0)
+        return c
+    with warnings.catch_warnings():
+        warnings.simplefilter("ignore")
+        for i in range(n):
+            kind = ["cycle", "debiased-same", "debiased-different", "scale", "rescale", "cycle"][i % 6]
+            if kind == "cycle":
+                size = r.choice([1, 2, 3, 4, 5, 6, 7, 9, 12, 31])
+                nd = r.randint(1, 12); first = r.randint(1, 366 - nd)
+                udays = sorted(r.sample(range(first, min(first + nd + 3, 367)), min(nd, min(first + nd + 3, 367) - first)))
+                days = [d for d in udays for _ in range(r.randint(1, 3))]; r.shuffle(days)
+                vals = sample(r, len(days), 0, 9, 16)
+                d = ISIMIP.from_variable("rsds", window_length_annual_cycle_of_upper_bounds=size)
+                cyc, ud = d._step1_get_annual_cycle_of_upper_bounds(fl(vals), np.array(days))
+                cc.add("k18_cycle %s %s %s %s %s %s" % (C.z(size), C.zl(days), C.ql(vals), C.ql(cyc), C.zl(ud), C.q(C.tol_for(list(cyc)) * 100)))
+                m = dict(func="ISIMIP._step1_get_annual_cycle_of_upper_bounds", size=size, days=days, vals=[str(v) for v in vals])
+            elif kind.startswith("debiased"):
+                k = r.randint(2, 8)
+                uf = sorted(r.sample(range(1, 20), k))
+                if kind == "debiased-same": uo = uh = uf
+                else:
+                    uo = sorted(r.sample(range(1, 20), r.randint(2, 8))); uh = sorted(r.sample(range(1, 20), r.randint(2, 8)))
+                co, ch, cf = cycle(len(uo)), cycle(len(uh), True), cycle(len(uf))
+                out = ISIMIP._step1_calculate_debiased_annual_cycle_of_upper_bounds(fl(co), np.array(uo), fl(ch), np.array(uh), fl(cf), np.array(uf))
+                cc.add("close_list (debiased_cycle %s %s %s %s %s %s) %s %s" % (C.ql(co), C.zl(uo), C.ql(ch), C.zl(uh), C.ql(cf), C.zl(uf), C.ql(out), C.q(C.tol_for(list(out)) * 100)))
+                m = dict(func="ISIMIP._step1_calculate_debiased_annual_cycle_of_upper_bounds", kind=kind, uo=uo, uh=uh, uf=uf, co=[str(v) for v in co], ch=[str(v) for v in ch], cf=[str(v) for v in cf])
+            else:
+                full = (i % 12) >= 6
+                ud = list(range(1, 367)) if full else sorted(r.sample(range(1, 367), r.randint(2, 10)))
+                cyc = cycle(len(ud), kind == "scale")
+                days = [r.choice(ud) for _ in range(r.randint(1, 12))]
+                vals = sample(r, len(days), 0, 9, 16)
+                f = ISIMIP._step1_scale_by_annual_cycle_of_upper_bounds if kind == "scale" else ISIMIP._step8_rescale_by_annual_cycle_of_upper_bounds
+                out = f(fl(vals), np.array(days), fl(cyc), np.array(ud))
+                M = "step1_scale" if kind == "scale" else "step8_rescale"
+                cc.add("k18_opt (%s %s %s %s %s) %s %s" % (M, C.ql(vals), C.zl(days), C.ql(cyc), C.zl(ud), C.ql(out), C.q(C.tol_for(list(out)) * 100)))
+                m = dict(func="ISIMIP._" + M, all_366_days=full, days=days, vals=[str(v) for v in vals], cycle_days=(ud if not full else "1..366"), cycle=([str(v) for v in cyc] if not full else "…"))
+            meta.append(m); res.case(("step1", kind, m.get("size"), m.get("all_366_days")), sample=m if len(res.samples) < 5 else None)
+    fails, errors = cc.run()
+    res.components["K18 Model/IsimipStep1.v (hand model) vs ISIMIP steps 1 and 8 (annual cycle of upper bounds)"] = dict(cases=len(cc.cases), disagreements=len(fails), errors=len(errors))
+    for e in errors[:3]:
+        res.broke("correspondence-error", "K18", e)
+    for i in fails[:5]:
+        res.broke("correspondence", "K18 " + meta[i]["func"], meta[i])
